@@ -64,6 +64,16 @@ func (w *WStore) after(call *StoreCall, err error) {
 	}
 }
 
+// injected returns the I/O error armed for this call, if any.
+func (w *WStore) injected(name string) error {
+	if w.n.failCalls[name] <= 0 {
+		return nil
+	}
+	w.n.failCalls[name]--
+	w.c.count("storeerr." + name)
+	return &injectedError{"injected " + name + " I/O error"}
+}
+
 func (w *WStore) WriteTransaction(tx *common.VersionedTransaction) error {
 	call := w.before("WriteTransaction", tx)
 	err := w.BadgerStore.WriteTransaction(tx)
@@ -73,6 +83,10 @@ func (w *WStore) WriteTransaction(tx *common.VersionedTransaction) error {
 
 func (w *WStore) StartNewRound(node crypto.Hash, number uint64, references *common.RoundLink, finalStart uint64) error {
 	call := w.before("StartNewRound", node, number, references, finalStart)
+	if err := w.injected("StartNewRound"); err != nil {
+		w.after(call, err)
+		return err
+	}
 	err := w.BadgerStore.StartNewRound(node, number, references, finalStart)
 	w.after(call, err)
 	return err
@@ -80,6 +94,10 @@ func (w *WStore) StartNewRound(node crypto.Hash, number uint64, references *comm
 
 func (w *WStore) UpdateEmptyHeadRound(node crypto.Hash, number uint64, references *common.RoundLink) error {
 	call := w.before("UpdateEmptyHeadRound", node, number, references)
+	if err := w.injected("UpdateEmptyHeadRound"); err != nil {
+		w.after(call, err)
+		return err
+	}
 	err := w.BadgerStore.UpdateEmptyHeadRound(node, number, references)
 	w.after(call, err)
 	return err
